@@ -38,6 +38,45 @@ def cert_validity(k: Kit, rule: str) -> None:
     if not all(isinstance(x, int) for x in (any_t, user_t, host_t)):
         rep.error(rule, 'cert type constants', 'CERT_TYPE_* do not fold')
         return
+    # "now" is read from the clock each time the certificate is checked
+    from ..flow import expr_sources as _es
+    g = k.cfg(fi)
+    rd = k.rd(fi)
+    cmps = [a for a in g.nodes if a.kind == 'atom' and
+            isinstance(a.ast, ast.Compare) and any(
+                dotted(x) in ('self._valid_after', 'self._valid_before')
+                for x in ast.walk(a.ast))]
+    rep.floor(rule, 'validity window comparisons', len(cmps), 2)
+    for a in cmps:
+        others = [x for x in [a.ast.left] + list(a.ast.comparators)
+                  if dotted(x) not in ('self._valid_after',
+                                       'self._valid_before')]
+        for x in others:
+            leaves, free = _es(g, rd, a.id, x)
+            okn = bool(leaves) and not free and all(
+                is_call(l, 'time') or is_call(l, 'time_ns') or
+                is_call(l, 'int') for l in leaves)
+            rep.check(okn, rule, key(fi, f'clock read at validation '
+                                     f'L{a.lineno}'),
+                      'the compared time is time.time() called in validate()',
+                      f'`{norm(x)}` compared with the validity window is '
+                      'not read from the clock inside validate() (a '
+                      'parameter default such as `now=time.time()` is '
+                      'evaluated once, at import): a certificate that '
+                      'expires while the process runs keeps being accepted',
+                      k.loc(fi, a))
+    defaults = [d for d in list(fi.node.args.defaults) +
+                list(fi.node.args.kw_defaults) if d is not None]
+    rep.check(not any(isinstance(c, ast.Call) for d in defaults
+                      for c in ast.walk(d)), rule,
+              key(fi, 'no call in a parameter default'),
+              'parameter defaults are constants',
+              'a parameter default of validate() contains a call, which '
+              'Python evaluates once when the module is imported',
+              fi.loc(fi.node))
+    if any(a.arg == 'now' for a in fi.node.args.args):
+        rep.info(rule, key(fi, 'validity table'), 'skipped: signature changed')
+        return
     space = {
         'want': [any_t, user_t, host_t],
         'have': [user_t, host_t],
@@ -652,3 +691,9 @@ def run(idx, rep, tier):
     no_empty_host_name(k, 'C04.R5')
     for o in rep.obligations[before:]:
         o.rule = 'C04.R5'
+    from .c18 import canonicalize_rules
+    rep.rule('C04.R10', 'host name canonicalisation (= C18.R8): the name '
+             'under which the host key is looked up is the queried name in '
+             'a configured domain, or a CNAME that a '
+             'CanonicalizePermittedCNAMEs rule permits for it')
+    canonicalize_rules(k, 'C04.R10')
